@@ -42,7 +42,72 @@ class LogLFR(LinearFourRates):
             self._vlog[-1].append(reference_bounds(self.time_decay_factor, self.warning_level, self.detect_level,
                                                    self.num_mc, est_rate, denom))
             np.random.set_state(after)
+            self._vlog[-1].append([float(est_rate), int(denom)])      # what the simulation was really asked for
         return b
+
+
+HOOKS = all(callable(getattr(LinearFourRates, n, None)) for n in ("_update_bounds_dict", "_sim_bounds"))
+
+
+class NumpyLog:
+    """Name-independent observation of the Monte-Carlo simulations, used only when the private methods the logging
+    subclass overrides no longer exist: every simulation draws with np.random.binomial and then takes four np.percentile
+    values (lfr.py:354-412).  Collects [p, size, [lb_warn, ub_warn, lb_detect, ub_detect]] per simulation."""
+    def __enter__(self):
+        self.sims, self.cur = [], None
+        self.ob, self.op = np.random.binomial, np.percentile
+        def binom(n, p, size=None, *a, **k):
+            if self.cur is None or self.cur[2]:
+                self.cur = [float(p), None if size is None else int(np.prod(size)), []]
+                self.sims.append(self.cur)
+            return self.ob(n, p, size, *a, **k)
+        def pct(a, q, *args, **k):
+            v = self.op(a, q, *args, **k)
+            if self.cur is not None:
+                try:
+                    self.cur[2].append(float(v))
+                except Exception:
+                    pass
+            return v
+        np.random.binomial, np.percentile = binom, pct
+        return self
+    def __exit__(self, *exc):
+        np.random.binomial, np.percentile = self.ob, self.op
+        return False
+
+
+class SynthLog:
+    """rebuilds the per-update log [estimate, denominator, key, simulated bounds or None] from the simulations seen at
+    the numpy level: the requests themselves (which rate, which key) follow the documented procedure, the estimate and
+    denominator of a simulated entry are the arguments np.random.binomial actually received"""
+    def __init__(self, p):
+        self.p, self.cache, self.since = p, set(), 0
+        self.conf = {(0, 0): 1, (0, 1): 1, (1, 0): 1, (1, 1): 1}
+    def step(self, yt, yp, prev_ds, sims):
+        p = self.p
+        if prev_ds == "drift":
+            self.conf = {(0, 0): 1, (0, 1): 1, (1, 0): 1, (1, 1): 1}; self.since = 0
+        self.since += 1
+        self.conf[(yp, yt)] += 1
+        c = self.conf
+        tn, fn, fp, tp = c[(0, 0)], c[(0, 1)], c[(1, 0)], c[(1, 1)]
+        est = {"tpr": tp / (tp + fn), "tnr": tn / (tn + fp), "ppv": tp / (fp + tp), "npv": tn / (tn + fn)}
+        den = {"tpr": tp + fn, "tnr": tn + fp, "ppv": fp + tp, "npv": tn + fn}
+        sims, out = [s for s in sims if len(s[2]) == 4], []
+        if self.since > p["burn_in"] and self.since % p["subsample"] == 0:
+            for rt in p["tracked"]:
+                key = float(round(np.float64(est[rt]), p["round_val"]))
+                if (key, den[rt]) in self.cache:
+                    out.append([est[rt], den[rt], key, None])
+                elif sims:
+                    s = sims.pop(0)
+                    self.cache.add((key, den[rt]))
+                    out.append([s[0], s[1], key, s[2]])
+                else:
+                    out.append([est[rt], den[rt], key, None])
+        for s in sims:     # simulations nobody should have asked for
+            out.append([s[0], s[1], float(round(np.float64(s[0]), p["round_val"])), s[2]])
+        return out
 
 
 def reference_bounds(eta, warning_level, detect_level, num_mc, est_rate, denom):
@@ -70,7 +135,7 @@ def gen_params(ctx, small):
     tracked = ctx.rng.sample(RATES, k) if ctx.rng.random() < 0.6 else list(RATES)
     return {"eta": ctx.rng.choice([0.9, 0.5, 0.99, 0.75]), "warn": ctx.rng.choice([0.3, 0.2, 0.1]), "detect": ctx.rng.choice([0.1, 0.05, 0.01]),
             "burn_in": ctx.rng.choice([0, 1, 2, 3] if small else [0, 5, 20, 50]), "num_mc": ctx.rng.choice([8, 15, 30]),
-            "subsample": ctx.rng.choice([1, 1, 2, 3]), "tracked": tracked, "round_val": ctx.rng.choice([1, 2, 4])}
+            "subsample": ctx.rng.choice([1, 1, 2, 3]), "tracked": tracked, "round_val": ctx.rng.choice([0, 1, 2, 4])}
 
 
 def gen_cases(ctx):
@@ -98,21 +163,29 @@ def gen_cases(ctx):
 def run_impl(case):
     d = make(case)
     rows = []
+    synth, prev = (None if HOOKS else SynthLog(case["params"])), None
     for i, (yt, yp) in enumerate(case["pairs"]):
         np.random.seed((case["seed"] * 7919 + i) % (2 ** 31))
-        k0 = len(d._vlog)
-        d.update(yt, yp)
+        if HOOKS:
+            k0 = len(d._vlog)
+            d.update(yt, yp)
+            log = [list(x) for x in d._vlog[k0:]]
+        else:
+            with NumpyLog() as L:
+                d.update(yt, yp)
+            log = synth.step(yt, yp, prev, L.sims)
         st, tot, sin = lifecycle_obs(d)
+        prev = st
         rs = getattr(d, "_r_stat", None)
         r = None
         try:
             r = [float(rs[sin][k]) for k in RATES]
         except Exception:
             r = None
-        rows.append({"ds": st, "total": tot, "since": sin, "recs": recs_of(d), "log": [list(x) for x in d._vlog[k0:]],
+        rows.append({"ds": st, "total": tot, "since": sin, "recs": recs_of(d), "log": log,
                      "r": r, "all_len": len(d.all_drift_states), "all_last": d.all_drift_states[-1] if d.all_drift_states else "MISSING",
                      "ncache": sum(len(v) for v in d._bounds.values()) if hasattr(d, "_bounds") else None})
-    return {"rows": rows}
+    return {"rows": rows, "hooks": HOOKS}
 
 
 def direct_check(case, obs):
@@ -149,6 +222,9 @@ def direct_check(case, obs):
                 if sim is not None and len(entry) > 4 and not all(abs(a - b) <= 1e-9 * max(1.0, abs(b)) for a, b in zip(sim, entry[4])):
                     return [f"step {i}: bounds {sim} for rate {est!r} / N={dn} are not the warning / detect level percentiles "
                             f"of the Monte-Carlo distribution of the statistic on the same draws ({entry[4]})"]
+                if sim is not None and len(entry) > 5 and (not feq(entry[5][0], new[rt]) or entry[5][1] != den[rt]):
+                    return [f"step {i}: the Monte-Carlo distribution was simulated for rate {entry[5][0]!r} / N={entry[5][1]}, but the current "
+                            f"estimate and denominator of {rt} are {new[rt]!r} / {den[rt]}"]
                 if not feq(est, new[rt]) or dn != den[rt]:
                     return [f"step {i}: bounds requested for rate estimate {est!r} / denominator {dn}, but {rt} of the epoch's confusion matrix is {new[rt]!r} / {den[rt]}"]
                 ck = (key, dn)
@@ -232,7 +308,10 @@ def extra(ctx):
     for (eta, pr, den) in [(0.9, 0.5, 10), (0.9, 0.8, 25), (0.5, 0.3, 8), (0.99, 0.6, 40)]:
         d = LinearFourRates(time_decay_factor=eta, warning_level=0.1, detect_level=0.05, num_mc=4000)
         np.random.seed(ctx.seed % 2 ** 31)
-        b = d._sim_bounds(pr, den)
+        sim = getattr(d, "_sim_bounds", None)
+        if sim is None:
+            return {"bounds_statistical_validation": "skipped: the simulation method is not reachable by its name"}
+        b = sim(pr, den)
         w = eta ** np.arange(den - 1, -1, -1)
         sims = (1 - eta) * (rng.binomial(1, pr, size=(200000, den)) * w).sum(axis=1)
         for k, q in (("lb_warn", 10), ("ub_warn", 90), ("lb_detect", 5), ("ub_detect", 95)):
